@@ -31,8 +31,14 @@ def enc_array(a):
     if np.iscomplexobj(a):
         return {"t": "c", "v": [[float(z.real), float(z.imag)] for z in a.ravel()]}
     if a.dtype.kind in "iu":
-        return {"t": "i", "v": [int(z) for z in a.ravel()]}
-    return {"t": "r", "v": [float(z) for z in a.ravel()]}
+        d = {"t": "i", "v": [int(z) for z in a.ravel()]}
+        if a.dtype != np.int64:
+            d["d"] = a.dtype.name
+        return d
+    d = {"t": "r", "v": [float(z) for z in a.ravel()]}
+    if a.dtype == np.float32:
+        d["d"] = "float32"
+    return d
 
 
 def dec_array(d):
@@ -40,8 +46,8 @@ def dec_array(d):
     if d["t"] == "c":
         return np.array([complex(r, i) for r, i in d["v"]], dtype=complex)
     if d["t"] == "i":
-        return np.array(d["v"], dtype=np.int64)
-    return np.array(d["v"], dtype=float)
+        return np.array(d["v"], dtype=np.dtype(d.get("d", "int64")))
+    return np.array(d["v"], dtype=np.dtype(d.get("d", "float64")))
 
 
 def fnum(x):
